@@ -58,6 +58,8 @@ def run(chk):
                     f'key {k!r} serialises what field {key_field[k]} declares', f'key {k!r} serialises {src}, field `{key_field[k]}` is {show(ann)}')
 
     # ---- R2..R4 parse_stream ------------------------------------------------------------------------------------------------
+    from .pbnfile import reader_rule
+    reader_rule(chk, 'C17.R6')
     pat, func, call, sep_if, ps_fn, pci = separator_pattern(repo, 'C17.R3')
     w_ps = repo.where(pci.module, ps_fn)
     q_ps = 'PbnParser.parse_stream'
